@@ -27,6 +27,70 @@ def run(index, rep):
     rep.guard(starve, index, rep)
     rep.guard(prio, index, rep)
     rep.guard(reset_rule, index, rep)
+    rep.guard(ruminant_list, index, rep)
+
+
+def ruminant_list(index, rep):
+    """grass goes to ruminants only: the list main() hands to feed_animals as the ruminants holds exactly the animals whose digestion type is
+    'ruminant' - decided for every digestion type the shipped species table lists (a test written by exclusion lets a third class graze)"""
+    import csv
+    rule = "C07.GRASS"
+    from .core import Inliner, args_by_ref_names
+    main = index.func(ANIM, "main")
+    fa = index.func(ANIM, "AnimalPopulation.feed_animals")
+    calls = [c for c in ast.walk(main) if isinstance(c, ast.Call) and (dotted(c.func) or "").endswith("feed_animals")]
+    table = index.path("data/no_food_trade/animal_feed_data/species_attributes.csv")
+    try:
+        with open(table, newline="", encoding="utf-8") as f:
+            rows = list(csv.reader(f))
+    except OSError:
+        raise AnalysisError("species_attributes.csv missing")
+    col = [i for i, h in enumerate(rows[0]) if h.strip().lower().replace("_", " ") == "digestion type"]
+    if not col:
+        raise AnalysisError("species_attributes.csv: no 'digestion type' column")
+    kinds = sorted({r[col[0]].strip() for r in rows[1:] if len(r) > col[0] and r[col[0]].strip()})
+    if len(calls) != 1:
+        rep.info(rule, "ruminant list: feed_animals is not called from main() directly (not decided here)")
+        return
+    arg = args_by_ref_names(calls[0], fa, ["animal_list", "ruminants"], method=False)[1]
+    e = Inliner(main).at(calls[0]).expr(arg) if arg is not None else None
+    if not (isinstance(e, ast.ListComp) and len(e.generators) == 1 and isinstance(e.generators[0].target, ast.Name) and e.generators[0].ifs):
+        rep.info(rule, "ruminant list: not built by a filtering comprehension (not decided here)")
+        return
+    var = e.generators[0].target.id
+
+    def holds(test, kind):
+        if isinstance(test, ast.BoolOp):
+            vs = [holds(v, kind) for v in test.values]
+            return all(vs) if isinstance(test.op, ast.And) else any(vs)
+        if isinstance(test, ast.UnaryOp) and isinstance(test.op, ast.Not):
+            return not holds(test.operand, kind)
+        if isinstance(test, ast.Compare) and len(test.ops) == 1:
+            def val(x):
+                if isinstance(x, ast.Attribute) and isinstance(x.value, ast.Name) and x.value.id == var and x.attr == "digestion_type":
+                    return kind
+                return ast.literal_eval(x)
+            l, r = val(test.left), val(test.comparators[0])
+            op = test.ops[0]
+            if isinstance(op, ast.Eq):
+                return l == r
+            if isinstance(op, ast.NotEq):
+                return l != r
+            if isinstance(op, ast.In):
+                return l in r
+            if isinstance(op, ast.NotIn):
+                return l not in r
+        raise ValueError(ast.unparse(test))
+
+    for kind in kinds:
+        try:
+            got = all(holds(t, kind) for t in e.generators[0].ifs)
+        except (ValueError, SyntaxError):
+            rep.info(rule, "ruminant list: the filter is not a test on digestion_type alone (not decided here)")
+            return
+        rep.check(got == (kind == "ruminant"), rule, f"ruminant list: digestion type {kind!r} {'is' if kind == 'ruminant' else 'is not'} a ruminant",
+                  f"animals whose digestion type is {kind!r} are {'left out of' if kind == 'ruminant' else 'put on'} the list of ruminants handed to "
+                  "feed_animals: grass would go to a species that is no ruminant (or be withheld from one)", loc=loc(ANIM, calls[0]))
 
 
 def reset_rule(index, rep):
